@@ -458,7 +458,11 @@ func (c *vqCase) run() (mm *vqMismatch, infra error) {
 				}
 				if !c.failed[st.N] {
 					if gap := vqGap(c.lifeExec[st.N], I); gap != "" {
-						return &vqMismatch{"x03:gap", fmt.Sprintf("step %d node %d: executed buckets are not contiguous: %s", si, st.N, gap), si}, nil
+						sig := "x03:gap"
+						if !vqGapFree(c.par) {
+							sig = "x03:gap:every-vs-interval" // these parameters skip buckets even when every pass is on time
+						}
+						return &vqMismatch{sig, fmt.Sprintf("step %d node %d, %s: executed buckets are not contiguous: %s", si, st.N, c.cqText("cq", "db"), gap), si}, nil
 					}
 				}
 			}
@@ -491,6 +495,34 @@ func (c *vqCase) run() (mm *vqMismatch, infra error) {
 		c.stats["behaviours_with_cluster_gap"]++
 	}
 	return nil, nil
+}
+
+// vqGapFree is CQSched.tla's GapFree: can consecutive on-time passes with these parameters leave a hole at all?
+// (half units, the model's numbers).  Parameters for which they can are the recorded finding X01-cq-gap.
+func vqGapFree(p vqPar) bool {
+	trunc := func(x, d int) int { return x - x%d }
+	ee := p.E
+	if ee == 0 {
+		ee = p.I
+	}
+	ff := p.F
+	if ff == 0 {
+		ff = p.I
+		if p.I < ee {
+			ff = ee
+		}
+	}
+	emin := ee
+	if p.I < ee {
+		emin = p.I
+	}
+	for k := 0; k <= p.I; k++ {
+		T := 2*p.I*ee + p.O + k*ee
+		if trunc(T+ee+p.I-ff-p.O-1, p.I) > trunc(T+p.I-emin-p.O, p.I) {
+			return false
+		}
+	}
+	return true
 }
 
 func vqGap(m map[int64]int, I time.Duration) string {
